@@ -1300,9 +1300,7 @@ func runC05R8(c *eng.Ctx, r *eng.RuleCtx) {
 		n := 0
 		for _, u := range uses {
 			ug := graphAt(u.pos)
-			un, _ := la.StateAt(ug, nodeAtPos(f, u.pos))
-			_ = un
-			useNode := ug.NodeOf(nodeAtPos(f, u.pos))
+			useNode := nodeContaining(ug, u.pos)
 			us, uHeld := section(useNode)
 			for _, d := range defs {
 				if d.v != u.v {
@@ -1314,7 +1312,7 @@ func runC05R8(c *eng.Ctx, r *eng.RuleCtx) {
 				if rs, isR := d.node.(*ast.RangeStmt); isR {
 					dn = loopBodyEntryOf(dg, rs)
 				} else {
-					dn = dg.NodeOf(d.node)
+					dn = nodeContaining(dg, d.node.Pos())
 				}
 				ds, dHeld := section(dn)
 				// neither node holds the lock itself: both run in the caller's critical section (R1 makes the callers
@@ -1333,26 +1331,16 @@ func runC05R8(c *eng.Ctx, r *eng.RuleCtx) {
 	}
 }
 
-// nodeAtPos returns the innermost statement or expression-statement-level node of f that starts at or contains pos
-// and is a node of a control-flow graph: used to locate the graph node of an index expression.
-func nodeAtPos(f *eng.Func, pos token.Pos) ast.Node {
-	var best ast.Node
-	ast.Inspect(f.Decl.Body, func(n ast.Node) bool {
-		if n == nil {
-			return false
+// nodeContaining returns the node of g with the smallest source span that contains pos.
+func nodeContaining(g *eng.Graph, pos token.Pos) *eng.GNode {
+	var best *eng.GNode
+	for _, n := range g.Nodes {
+		if n.Node == nil || !(n.Node.Pos() <= pos && pos < n.Node.End()) {
+			continue
 		}
-		if n.Pos() <= pos && pos < n.End() {
-			switch n.(type) {
-			case *ast.AssignStmt, *ast.ExprStmt, *ast.ReturnStmt, *ast.IncDecStmt, *ast.DeclStmt, *ast.SendStmt, *ast.GoStmt, *ast.DeferStmt:
-				best = n
-			case ast.Expr:
-				if best == nil {
-					best = n
-				}
-			}
-			return true
+		if best == nil || n.Node.End()-n.Node.Pos() < best.Node.End()-best.Node.Pos() {
+			best = n
 		}
-		return false
-	})
+	}
 	return best
 }
